@@ -12,6 +12,7 @@ import (
 	"github.com/nspcc-dev/neo-go/pkg/core"
 	"github.com/nspcc-dev/neo-go/pkg/core/block"
 	"github.com/nspcc-dev/neo-go/pkg/core/interop"
+	"github.com/nspcc-dev/neo-go/pkg/core/interop/interopnames"
 	"github.com/nspcc-dev/neo-go/pkg/core/native/nativenames"
 	"github.com/nspcc-dev/neo-go/pkg/core/state"
 	"github.com/nspcc-dev/neo-go/pkg/core/transaction"
@@ -155,6 +156,11 @@ func newEnv(t testing.TB, stage string) *env {
 	}
 	e.AddBlockCheckHalt(t, fund...)
 	v.refreshNatives()
+	if ns, err := v.interopNames(); err == nil {
+		for _, n := range ns {
+			sysNames.Store(interopnames.ToID([]byte(n)), n)
+		}
+	}
 	return v
 }
 
